@@ -261,6 +261,10 @@ func main() {
 	if err := os.WriteFile(filepath.Join(dir, "export_verif_c12.go"), []byte(b.String()), 0o644); err != nil {
 		die("%v", err)
 	}
+	genC05(repo, out) // property C05 (c05.go)
 	// property C07: crash-point injection into the segment writer (crash.go)
 	genCrash(repo, out)
+	// property C11: pause points before the rotation steps (c11.go). MUST run after genCrash: it instruments the
+	// copy of pkg/segment/writer/segstore.go that genCrash has produced (both hook sets live in one file).
+	genC11(repo, out)
 }
